@@ -7,7 +7,7 @@
            octabox bb and sub-octaboxes sub, at their current shifted position)
      Kern  lim (x bounds), o0, s0, s1, rtl
      Fold  s, o0, o1 *)
-EXTENDS Octabox, Json, IOUtils, TLC, Sequences, Integers
+EXTENDS Merge, Json, IOUtils, TLC, Sequences, Integers
 
 CONSTANTS Tol,           \* 1/16 units
           SkipLtrOffset  \* TRUE: left-to-right steps with a non-zero x offset carry no obligation (known finding F3)
@@ -39,7 +39,17 @@ Near(a, b) == a - b <= 1 /\ b - a <= 1
 FoldPost(e) == Near(e.o1[1], e.o0[1] + e.s[1]) /\ Near(e.o1[2], e.o0[2] + e.s[2])
 
 \* counters (TLC registers; the validation runs with one worker): fixes, obliged resolved fixes, neighbour pairs in reach
-TInit == l = 1 /\ TLCSet(1, 0) /\ TLCSet(2, 0) /\ TLCSet(3, 0)
+\* the overlap ranges the real mergeSlot computed for the bounding octabox (hook event 15) against Merge.tla; the
+\* neighbour boxes are recorded relative to the target's origin, the formulas want them relative to its anchor
+MxNear(a, b) == a - b <= Tol /\ b - a <= Tol
+MxAgree(e, nb) == \A j \in 1..Len(nb.mx) :
+                    LET t == <<e.o0[1] + e.s0[1], e.o0[2] + e.s0[2]>> IN
+                    /\ MxNear(nb.mx[j][2], VMin(nb.mx[j][1], OctOfSeq(e.tb), OctOfSeq(nb.bb), t, e.o0))
+                    /\ MxNear(nb.mx[j][3], VMax(nb.mx[j][1], OctOfSeq(e.tb), OctOfSeq(nb.bb), t, e.o0))
+MxCount(e) == LET RECURSIVE C(_)
+                  C(k) == IF k > Len(e.nb) THEN <<0, 0>> ELSE LET r == C(k + 1) IN <<r[1] + Len(e.nb[k].mx), r[2] + (IF MxAgree(e, e.nb[k]) THEN 0 ELSE 1)>>
+              IN  C(1)
+TInit == l = 1 /\ TLCSet(1, 0) /\ TLCSet(2, 0) /\ TLCSet(3, 0) /\ TLCSet(4, 0) /\ TLCSet(5, 0)
 Step(name) == l <= Len(Log) /\ Ev.e = name /\ l' = l + 1
 TCase == Step("Case")
 TFix  == /\ Step("Fix") /\ FixPost(Ev)
@@ -47,10 +57,12 @@ TFix  == /\ Step("Fix") /\ FixPost(Ev)
          /\ TLCSet(2, TLCGet(2) + (IF Obliged(Ev) /\ ~Ev.col THEN 1 ELSE 0))
          /\ TLCSet(3, TLCGet(3) + (IF Obliged(Ev) /\ ~Ev.col /\ WellFormed(Rect(Ev.lim))
                                     THEN Len(SelectSeq(Ev.nb, LAMBDA n : InReach(OctOfSeq(n.bb), Rect(Ev.lim), Ev.o0))) ELSE 0))
+         \* agreement of the recorded overlap ranges with Merge.tla is model conformance, not part of the property
+         /\ TLCSet(4, TLCGet(4) + MxCount(Ev)[1]) /\ TLCSet(5, TLCGet(5) + MxCount(Ev)[2])
 TKern == Step("Kern") /\ KernPost(Ev)
 TFold == Step("Fold") /\ FoldPost(Ev)
 TNext == TCase \/ TFix \/ TKern \/ TFold
 TSpec == TInit /\ [][TNext]_l
 Accepted == /\ TLCGet("stats").diameter - 1 = Len(Log)
-            /\ PrintT(<<"counters", TLCGet(1), TLCGet(2), TLCGet(3)>>)
+            /\ PrintT(<<"counters", TLCGet(1), TLCGet(2), TLCGet(3), TLCGet(4), TLCGet(5)>>)
 =============================================================================
